@@ -1,5 +1,14 @@
-"""C02 bounded stand-in: see samplers_monitor (rejected rows / blocks restored exactly, later reads consistent)."""
+"""C02 bounded stand-ins:
+  * samplers_monitor: rejected rows / blocks restored exactly, later reads consistent (recorded sampler steps);
+  * rejection histories on the real State over real model graphs: whatever was (not) read before the proposal and between
+    the proposal and the decision, after a full rejection -- and after a partial one that rejects every individual -- every
+    variable reads exactly as if the proposal had never been made."""
+import itertools
+
+import torch
+
 from .samplers_monitor import run
+from .common import MODEL_KINDS, make_model_state, same_value
 
 ASSUMPTIONS = ["stand-in C02: seeded sampler sweeps, bounds under coverage.bounded"]
 
@@ -8,4 +17,56 @@ def standin_sampler_steps(tier, seed):
     return run(tier, seed)
 
 
-STANDINS = [standin_sampler_steps]
+def standin_rejection_histories(tier, seed):
+    from leaspy.variables.specs import IndividualLatentVariable, PopulationLatentVariable
+    from leaspy.variables.state import StateForkType
+    violations, evals, distinct, samples = [], 0, set(), []
+    kinds = MODEL_KINDS if tier == "thorough" else MODEL_KINDS[:2]
+    for kind, kw, n_ft in kinds:
+        m, base, ds, df = make_model_state(kind, kw, n_ft, seed=seed, n_ind=5)
+        dag = base.dag
+        latents = [n for n in dag if isinstance(dag[n], (PopulationLatentVariable, IndividualLatentVariable))]
+        for name in latents:
+            children = list(dag.sorted_children[name])
+            picks = [(), tuple(children[:1]), tuple(children[-1:]), tuple(children)]
+            # documented precondition of a per-individual rejection: only variables carrying the individual axis are read
+            # between the proposal and the decision
+            ind_axis = [k for k in children if k in ("rt", "model", "alpha", "nll_attach_ind", "nll_regul_ind_sum_ind") or k.endswith("_ind")]
+            picks_ind = [(), tuple(ind_axis[:1]), tuple(ind_axis[-1:]), tuple(ind_axis)]
+            for before, between, partial in [(b, w, False) for b, w in itertools.product(picks, picks)] + \
+                    ([(b, w, True) for b, w in itertools.product(picks, picks_ind)] if isinstance(dag[name], IndividualLatentVariable) else []):
+                if True:
+                    def prepared():
+                        st = base.clone()
+                        st.auto_fork_type = None
+                        st[name] = st[name].clone()          # the derived values of `name` become unset
+                        st.auto_fork_type = StateForkType.REF
+                        for k in before:
+                            st[k]
+                        return st
+                    ref, st = prepared(), prepared()
+                    torch.manual_seed(seed)
+                    st[name] = st[name] + 0.05 * torch.randn(st[name].shape)     # the proposal
+                    for k in between:
+                        st[k]
+                    if partial:
+                        st.revert(torch.ones(ds.n_individuals, dtype=torch.bool))
+                    else:
+                        st.revert()
+                    evals += 1
+                    distinct.add((kind, str(kw), name, before, between, partial))
+                    for k in [name] + children:
+                        if not same_value(st[k], ref[k], exact=True):
+                            violations.append(dict(key=f"after a {'partial (all individuals) ' if partial else ''}rejection of a proposal on {name}, {k} does not read as if the proposal had never been made",
+                                                   model=f"{kind}{kw}", read_before=list(before), read_between=list(between)))
+                            break
+        if len(samples) < 2:
+            samples.append(dict(model=f"{kind}{kw}", latents=latents))
+    uniq = {v["key"]: v for v in violations}
+    return dict(evaluations=evals, distinct_nontrivial=len(distinct),
+                rule="one evaluation = one (reads before, proposal, reads between, rejection) history on a real model state compared variable by variable with the same history without the proposal",
+                samples=samples, violations=list(uniq.values())[:8],
+                bound=dict(model_kinds=len(kinds), read_sets=4, exhaustive=True))
+
+
+STANDINS = [standin_sampler_steps, standin_rejection_histories]
